@@ -161,7 +161,17 @@ def r2_lines_once(ctx):
     recv = f.node.args.args[0].arg
     dom = ctx.dom(g, g.entry)
     # source text per prefix branch
+    class _D:
+        pass
     src_defs = [d for d in rd.defs if d.name == 'src_text']
+    if not src_defs:
+        # the text is split where it is chosen: `part_lines = <text>.splitlines()` per branch
+        for d in rd.defs:
+            if d.kind == 'assign' and isinstance(d.value, ast.Call) and isinstance(d.value.func, ast.Attribute) and d.value.func.attr == 'splitlines' and not d.value.args and \
+                    not any(isinstance(x, ast.Attribute) and x.attr == 'want' for x in ast.walk(d.value)):
+                dd = _D()
+                dd.node, dd.value = d.node, d.value.func.value
+                src_defs.append(dd)
     rep.floor('C18.R2', 'definitions of the displayed source', len(src_defs), 2)
     for d in src_defs:
         facts = graph.guard_facts(dom, d.node)
